@@ -44,13 +44,34 @@ func seqOf(idx bleve.Index) (int, error) {
 
 func TestC13Rollback(t *testing.T) {
 	ev := Ev("C13")
-	ev.SetRule("rapid: scorch disk index with numSnapshotsToKeep in {1,2,3,5}, safe/unsafe batches, drawn persister/merge options; history of 4-25 batches each setting internal key seq=i and stamping n=i, interleaved with waits for persistence and forced merges; clean Close. " +
+	ev.SetRule("rapid: scorch disk index with numSnapshotsToKeep in {1,2,3,5}, safe/unsafe batches, drawn persister/merge options, a schedule mode (none / seeded delay plan at the lock-free hook points / rendezvous: persister and merger wait at 1-8 drawn window points - after segment files, inside the in-memory merge, before an introduction, after the bolt commit - until the writer's next batch, 20 ms cap) so that batches land inside persists and merges; history of 4-25 batches each setting internal key seq=i and stamping n=i, interleaved with waits for persistence and forced merges; clean Close. " +
 		"Oracle: RollbackPoints is non-empty, epochs strictly descending, every point's seq is a batch number, the first point's seq equals what a plain Open shows, at least min(N, persisted epochs seen) points; for EVERY offered point: copy the directory, Rollback, Open: full state == model(seq), two more batches + reopen work, and no newer epoch is listed after the rollback; " +
 		"non-trivial = >=2 points offered and the target is not the newest; distinct = hash of (config, history, target)")
 	checkPropN(t, "C13", 40, func(t *rapid.T) {
 		cfg := genC03Config(t)
 		cfg.KeepSnapshots = rapid.SampledFrom([]int{1, 2, 3, 5}).Draw(t, "keepN")
 		batches := genC03Workload(t, 4, 25)
+		// seeded delays at the lock-free hook points (in particular inside the persister's
+		// in-memory merge) so that batches are introduced while a persist or merge is under way
+		delaySeed := uint64(0)
+		var rv *Rendezvous
+		switch mode := rapid.IntRange(0, 4).Draw(t, "schedule"); {
+		case mode == 0:
+			InstallHook(HookPlan{Mode: "count"})
+		case mode == 1:
+			delaySeed = rapid.Uint64Range(1, 1<<40).Draw(t, "delaySeed")
+			InstallHook(HookPlan{Mode: "delay", DelaySeed: delaySeed, DelayMaxUS: rapid.SampledFrom([]int{500, 3000}).Draw(t, "delayMaxUS")})
+		default:
+			// background tasks wait inside their windows for the next batch (unsafe batches only:
+			// a safe batch waits for the persister itself)
+			cfg.UnsafeBatch = true
+			pts := rapid.SliceOfNDistinct(rapid.SampledFrom(RendezvousPoints), 1, len(RendezvousPoints), rapid.ID[string]).Draw(t, "rendezvous")
+			rv = NewRendezvous(pts, 20*time.Millisecond)
+			InstallHook(HookPlan{Mode: "count"})
+			SetOnPoint(rv.OnPoint)
+			defer SetOnPoint(nil)
+		}
+		defer ClearHook()
 		dir := TempDir(t)
 		idxDir := filepath.Join(dir, "idx")
 		idx, err := cfg.Create(idxDir, WorldMapping())
@@ -72,6 +93,9 @@ func TestC13Rollback(t *testing.T) {
 			if err := c03ApplyBatch(idx, i+1, ops, false); err != nil {
 				idx.Close()
 				t.Fatalf("batch %d: %v", i+1, err)
+			}
+			if rv != nil {
+				rv.Signal()
 			}
 			switch rapid.IntRange(0, 5).Draw(t, "after") {
 			case 0, 1:
@@ -106,7 +130,18 @@ func TestC13Rollback(t *testing.T) {
 		if err != nil {
 			t.Fatalf("RollbackPoints: %v", err)
 		}
-		desc := func() string { return fmt.Sprintf("config %s history %v", cfg, hist) }
+		memMerges := HookCounts()["persist.memMerge.afterIntroduce"]
+		SetOnPoint(nil)
+		ClearHook()
+		met := 0
+		if rv != nil {
+			_, met = rv.Stats()
+		}
+		rvDesc := ""
+		if rv != nil {
+			rvDesc = fmt.Sprintf(" background tasks wait for the next batch at %v", sortedKeys(rv.Points))
+		}
+		desc := func() string { return fmt.Sprintf("config %s delay seed %d%s history %v", cfg, delaySeed, rvDesc, hist) }
 		if len(pts) == 0 {
 			t.Fatalf("no rollback point offered (%s)", desc())
 		}
@@ -210,6 +245,15 @@ func TestC13Rollback(t *testing.T) {
 			}
 			if cfg.UnsafeBatch {
 				cl = append(cl, "unsafe-batch")
+			}
+			if delaySeed != 0 {
+				cl = append(cl, "delay-plan")
+			}
+			if met > 0 {
+				cl = append(cl, "batch-introduced-inside-a-background-window")
+			}
+			if memMerges > 0 {
+				cl = append(cl, "in-memory-merges")
 			}
 			canon := map[string]interface{}{"cfg": cfg, "batches": batches, "hist": hist, "target": ti}
 			smp := map[string]interface{}{"cfg": cfg, "history": hist, "points_seq": seqs, "target_index": ti}
